@@ -6,7 +6,7 @@ from typing import Dict, List
 
 import sympy as sp
 
-from ..astutil import call_name, calls_in, own_nodes, unparse, kwarg, dotted
+from ..astutil import call_name, calls_in, own_nodes, unparse, kwarg, dotted, bind_call
 from ..cfg import cfg_of, events_per_iteration
 from ..dataflow import reaching
 from ..expr import Translator, equal, forward_substitute
@@ -145,6 +145,9 @@ def _montecarlo(ck: Checker, prog: Program):
 
 from ..pathtable import holds as _holds
 
+FLOAT_DTYPES = ("float", "np.float64", "np.double", "'float64'", "'float'", "np.float_")
+FLOAT_DTYPES_SRC = ("float", "np.float64", "np.double", "numpy.float64", "numpy.double", "'float64'", "'float'", '"float64"', '"float"', "np.float_", "np.longdouble")
+
 
 def _montecarlo_table(ck: Checker, prog: Program, f):
     """The function as a decision table over the four (generator, spatial) distribution pairs."""
@@ -155,62 +158,59 @@ def _montecarlo_table(ck: Checker, prog: Program, f):
     GM, GS = R("generator_means"), R("generator_stddevs")
     NONE = sp.Symbol("None")
     gi = sp.Function("getitem")
-    pt = PathTable(prog, f.module, scope=f, unroll=True)
+    from ..pathtable import seq_form, SEQ, ELT
+    pt = PathTable(prog, f.module, scope=f, unroll=True, map_loops=True)
     leaves = pt.leaves(f.node.body)
     rets = [l for l in leaves if l.exit == "return"]
     if not rets:
         raise AnalysisError(f"{q}: no returning path")
-    loops = [st for st in f.node.body if isinstance(st, ast.For)]
-    if len(loops) != 1:
-        raise AnalysisError(f"{q}: expected one loop drawing the realisations, found {len(loops)}")
-    lp = loops[0]
-    # ---- draws: row r = rng.normal(mean_r, stddev_r, n_realizations), rows paired by zip(generator_means, generator_stddevs)
-    okd = True
-    why = ""
+    fnm = lambda x: getattr(getattr(x, "func", None), "__name__", "")      # noqa: E731
+    RL = R("realizations")
+    # ---- draws, by value: the realisations are the sequence, over zip(generator_means, generator_stddevs) in order, of
+    #      rng.normal(mean, stddev, n_realizations) - filled row by row, collected in a list, through a closure or functools.partial
+    okd, why = True, ""
+    value_of: Dict[int, sp.Expr] = {}
+    loop_site = next((st for st in f.node.body if isinstance(st, ast.For)), f.node)
     for l in rets:
-        if id(lp) not in l.snaps:
-            okd, why = False, "a returning path skips the draws"
+        v = seq_form(l.value)
+        cands = {t for t in v.atoms(sp.Function) if fnm(t) == "SEQ" and any(fnm(a) in ("normal", "lognormal", "uniform", "standard_normal") for a in t.args[0].atoms(sp.Function) | {t.args[0]})}
+        if len(cands) != 1:
+            okd, why = False, f"{len(cands)} sequences of draws reach the result"
+            value_of[id(l)] = v
             continue
-        env0 = dict(l.snaps[id(lp)][0])
-        T0 = Translator(env=env0)
-        it = T0.tr(lp.iter)
-        want_it = sp.Function("enumerate")(sp.Function("zip")(GM, GS))
-        tg = lp.target
-        if it != want_it or not (isinstance(tg, ast.Tuple) and len(tg.elts) == 2 and isinstance(tg.elts[1], ast.Tuple) and len(tg.elts[1].elts) == 2):
-            okd, why = False, f"the loop runs over {it}"
-            continue
-        ROW, M, SD = sp.Symbol("<row>", integer=True), R("<mean>"), R("<stddev>")
-        env = dict(env0)
-        env[unparse(tg.elts[0])] = ROW
-        env[unparse(tg.elts[1].elts[0])] = M
-        env[unparse(tg.elts[1].elts[1])] = SD
-        sub = PathTable(prog, f.module, env=env, scope=f).leaves(lp.body)
-        rng_now = env0.get("rng", RNG)
+        d = next(iter(cands))
         is_none = any(str(x) == str(sp.Eq(RNG, NONE, evaluate=False)) for x in literals(l))
         want_rng = sp.Function("default_rng")() if is_none else RNG
-        stores = [(x, sl.store_at[id(x[3])]) for sl in sub for x in sl.events if x[0] == "store" and id(x[3]) in sl.store_at]
-        ALL = sp.Function("slice")(NONE, NONE, NONE)
-        good = len(sub) == 1 and len(stores) == 1 and stores[0][1][1] == sp.Function("idx")(ROW, ALL) \
-            and stores[0][0][2] == sp.Function("normal")(want_rng, M, SD, NR)
-        if not good:
+        want = SEQ(sp.Function("normal")(want_rng, gi(ELT, sp.Integer(0)), gi(ELT, sp.Integer(1)), NR), sp.Function("zip")(GM, GS))
+        if d != want:
+            okd, why = False, f"the realisations are {str(d)[:200]} with rng {'None' if is_none else 'given'}"
+        value_of[id(l)] = v.xreplace({d: RL})
+        # a pre-allocated buffer must be a float array with one row per generating location
+        for st_id, (env0, _n) in l.snaps.items():
+            for name, val in env0.items():
+                if fnm(val) not in ("empty", "zeros", "ones", "full", "empty_like", "zeros_like"):
+                    continue
+                filled = any(isinstance(x, ast.Subscript) and isinstance(x.ctx, ast.Store) and isinstance(x.value, ast.Name) and x.value.id == name
+                             for lp_ in f.node.body if isinstance(lp_, ast.For) and id(lp_) == st_id for x in ast.walk(lp_))
+                if not filled:
+                    continue
+                shape_ok = fnm(val) in ("empty", "zeros") and val.args and isinstance(val.args[0], sp.Tuple) and len(val.args[0]) == 2 \
+                    and val.args[0][0] in (sp.Function("len")(GM), sp.Function("len")(GS)) and val.args[0][1] == NR
+                dtype_ok = shape_ok and (len(val.args) == 1 or (len(val.args) == 2 and str(val.args[1]) in FLOAT_DTYPES))
+                if not dtype_ok:
+                    okd = False
+                    why = f"the draws are stored into {val}: not a float array of shape (number of generating locations, n_realizations) - the draws would be converted to the buffer's type"
+    # no conversion of the draws to a non-float type anywhere in the function
+    for c in calls_in(f.node):
+        dt = kwarg(c, "dtype")
+        if dt is not None and unparse(dt) not in FLOAT_DTYPES_SRC:
             okd = False
-            why = f"row store {[(str(s_[1][1]), str(s_[0][2])) for s_ in stores]} with rng {'None' if is_none else 'given'}"
-        elif stores:
-            # the buffer the draws are stored into: one float row per generating location, whatever the type of the means
-            buf = stores[0][1][0]
-            bn = getattr(getattr(buf, "func", None), "__name__", "")
-            shape_ok = bn in ("empty", "zeros") and buf.args and isinstance(buf.args[0], sp.Tuple) and len(buf.args[0]) == 2 \
-                and buf.args[0][0] in (sp.Function("len")(GM), sp.Function("len")(GS)) and buf.args[0][1] == NR
-            dtype_ok = shape_ok and (len(buf.args) == 1 or (len(buf.args) == 2 and str(buf.args[1]) in ("float", "np.float64", "np.double", "'float64'", "'float'", "np.float_")))
-            if not dtype_ok:
-                okd = False
-                why = f"the draws are stored into {buf}: not a float array of shape (number of generating locations, n_realizations) - the draws would be converted to the buffer's type"
+            why = f"`{norm_key(c, 80)}` converts to {unparse(dt)}: the realisations would lose their fractional part"
     if okd:
         ck.ok("C14.R3", q, "row r = rng.normal(mean_r, stddev_r, n_realizations)", detail="rng = default_rng() exactly when no generator is given")
     else:
-        ck.violation("C14.R3", q, "realisations", f"row r of the realisations is not rng.normal(generator_means[r], generator_stddevs[r], size=n_realizations) ({why})", loc=f.loc(lp))
+        ck.violation("C14.R3", q, "realisations", f"row r of the realisations is not rng.normal(generator_means[r], generator_stddevs[r], size=n_realizations) ({why})", loc=f.loc(loop_site))
     # ---- the four distribution pairs
-    RL = R("realizations")
     names = {"normal": sp.Symbol("'normal'"), "lognormal": sp.Symbol("'lognormal'")}
     n_ok = 0
     for g in ("normal", "lognormal"):
@@ -231,13 +231,14 @@ def _montecarlo_table(ck: Checker, prog: Program, f):
             st = sp.Function("_statistics")(conv, W)
             mean, std = gi(st, sp.Integer(0)), gi(st, sp.Integer(1))
             want = sp.Tuple(sp.exp(mean), std, sp.exp(conv)) if s_ == "lognormal" else sp.Tuple(mean, std, conv)
-            bad = [l for l in cands if not (isinstance(_spec(l.value, assign), sp.Tuple) and len(l.value) == 3 and all(equal(a, b) for a, b in zip(_spec(l.value, assign), want)))]
+            bad = [l for l in cands if not (isinstance(_spec(value_of[id(l)], assign), sp.Tuple) and len(value_of[id(l)]) == 3
+                                            and all(equal(a, b) for a, b in zip(_spec(value_of[id(l)], assign), want)))]
             if not bad:
                 n_ok += 1
                 ck.ok("C14.R4", q, f"({g}, {s_}): statistics of {conv}; {'exp of mean and realisations' if s_ == 'lognormal' else 'no back-transform'}")
             else:
                 ck.violation("C14.R4", q, f"({g}, {s_})",
-                             f"for generators '{g}' and spatial distribution '{s_}' the function returns {bad[0].value}; expected {want} "
+                             f"for generators '{g}' and spatial distribution '{s_}' the function returns {value_of[id(bad[0])]}; expected {want} "
                              f"(conversion into the space of the spatial distribution, statistics with the given weights, back-transform iff lognormal)", loc=f.loc())
     # ---- unknown names raise
     T2 = sp.Function("in_")
@@ -338,8 +339,34 @@ def _spatial(ck: Checker, prog: Program):
     if len(wl) == 1 and isinstance(wl[0].value, sp.Tuple) and len(wl[0].value) == 2:
         SELF, B = R_("self"), R_("boundary")
         MASKV = F("_boundary_to_mask")(SELF, B)
+        if "boundary" not in w.params:
+            # the mask is built by the callers: each of them must hand over the convex-hull mask of its own boundary
+            if len(w.params) != 2:
+                raise AnalysisError(f"{w.qualname}: parameters are {w.params}")
+            MASKV = R_(w.params[1])
+            wl[0].value = wl[0].value.xreplace({sp.Symbol(f"{w.params[1]}.area", real=True): F("attr_area")(MASKV)})
+            n_callers = 0
+            for g in cls.methods.values():
+                if not any(isinstance(c, ast.Call) and call_name(c) == w.name for c in own_nodes(g.node)):
+                    continue
+                if "boundary" not in g.params:
+                    raise AnalysisError(f"{g.qualname}: calls {w.name} without a boundary of its own")
+                got = []
+
+                def chook(call, T, g=g):
+                    if call_name(call) == w.name and isinstance(call.func, ast.Attribute):
+                        bnd = bind_call(call, w.params, skip_first=True)
+                        got.append(T.tr(bnd[w.params[1]]) if w.params[1] in bnd else sp.Symbol("<missing>"))
+                    return pkg_call_hook(prog, g.module, cls)(call, T)
+                PathTable(prog, g.module, call_hook=chook, unroll=True).leaves(g.node.body)
+                n_callers += 1
+                if not got or any(x != F("_boundary_to_mask")(SELF, B) for x in got):
+                    ck.violation("C14.R5", g.qualname, "mask handed to the weights",
+                                 f"{g.qualname} passes {got[:1]} to {w.name}: not the convex-hull mask of its own boundary", loc=g.loc())
+            if n_callers == 0:
+                raise AnalysisError(f"{w.qualname}: no caller builds the mask")
         bvm = cls.methods["_bounded_voronoi"]
-        extra = [F("default")(Translator().tr(bvm.defaults()[p_])) for p_ in bvm.params[2:] if p_ in bvm.defaults()]
+        extra = [F("default")(Translator().tr(bvm.defaults()[p_])) for p_ in bvm.params[2:] + [k for k in bvm.kwonly if k not in bvm.params] if p_ in bvm.defaults()]
         BV = F("_bounded_voronoi")(SELF, MASKV, *extra)         # further parameters (closing radius) at their defaults
         regions_v, indices_v = gi(BV, sp.Integer(0)), gi(BV, sp.Integer(1))
         total = F("attr_area")(MASKV)
@@ -435,19 +462,20 @@ def _closing_distance(ck: Checker, prog: Program, cls):
             return [("num", float(v), func, at)]
         if v == sp.Symbol("None"):
             return [("none", None, func, at)]
-        if isinstance(v, sp.Symbol) and v.name in func.params and depth < 3:
+        allp = list(func.params) + [k for k in func.kwonly if k not in func.params]
+        if isinstance(v, sp.Symbol) and v.name in allp and depth < 3:
             out = []
             d = func.defaults().get(v.name)
             if d is not None:
                 out += numeric(func, d, func.node, depth + 1) if not isinstance(d, ast.Constant) else \
                     [("none" if d.value is None else "num", None if d.value is None else float(d.value), func, func.node)]
-            k = func.params.index(v.name)
+            k = func.params.index(v.name) if v.name in func.params else None
             for g in cls.methods.values():
                 for c in own_nodes(g.node):
                     if isinstance(c, ast.Call) and call_name(c) == func.name and isinstance(c.func, ast.Attribute):
                         a = kwarg(c, v.name)
                         o = 0 if "staticmethod" in func.decorators else 1
-                        if a is None and len(c.args) > k - o >= 0:
+                        if a is None and k is not None and len(c.args) > k - o >= 0:
                             a = c.args[k - o]
                         if a is not None:
                             out += numeric(g, a, _stmt_of(g, c), depth + 1)
